@@ -133,7 +133,7 @@ func setterKind(fd *ast.FuncDecl, field string) string {
 func syncRetryClone(repo string) (string, string, error) {
 	fset := token.NewFileSet()
 	files := map[string]*ast.File{}
-	for _, n := range []string{"retry.go", "client.go", "request.go"} {
+	for _, n := range []string{"retry.go", "client.go", "request.go", "middleware.go"} {
 		f, err := parser.ParseFile(fset, filepath.Join(repo, n), nil, 0)
 		if err != nil {
 			return "", "", err
@@ -250,6 +250,58 @@ func syncRetryClone(repo string) (string, string, error) {
 		})
 		sort.Strings(rtAssigns)
 	}
+	// how often the non-test sources call the caller's retry callbacks: once each, in Request.do
+	callSites := map[string]int{}
+	srcs, _ := filepath.Glob(filepath.Join(repo, "*.go"))
+	for _, fn := range srcs {
+		if strings.HasSuffix(fn, "_test.go") || strings.Contains(filepath.Base(fn), "export_verif") {
+			continue
+		}
+		f, err := parser.ParseFile(fset, fn, nil, 0)
+		if err != nil {
+			continue
+		}
+		ast.Inspect(f, func(n ast.Node) bool {
+			c, ok := n.(*ast.CallExpr)
+			if !ok {
+				return true
+			}
+			switch fun := c.Fun.(type) {
+			case *ast.SelectorExpr:
+				if fun.Sel.Name == "GetRetryInterval" {
+					callSites["interval"]++
+				}
+			case *ast.IndexExpr:
+				if sel, ok := fun.X.(*ast.SelectorExpr); ok {
+					switch sel.Sel.Name {
+					case "RetryHooks":
+						callSites["hooks"]++
+					case "RetryConditions":
+						callSites["conds"]++
+					}
+				}
+			}
+			return true
+		})
+	}
+	// parseRequestHeader merges the client's headers on the first attempt of an execution only
+	mergeOnce := false
+	if ph := findFunc(files, "", "parseRequestHeader"); ph != nil && ph.Body != nil && len(ph.Body.List) > 0 {
+		if is, ok := ph.Body.List[0].(*ast.IfStmt); ok {
+			cond := ""
+			ast.Inspect(is.Cond, func(n ast.Node) bool {
+				if b, ok := n.(*ast.BinaryExpr); ok && exprString(b.X) == "r.RetryAttempt" && b.Op == token.GTR {
+					if lit, ok := b.Y.(*ast.BasicLit); ok && lit.Value == "0" {
+						cond = "ok"
+					}
+				}
+				return true
+			})
+			if _, isRet := is.Body.List[0].(*ast.ReturnStmt); cond == "ok" && len(is.Body.List) == 1 && isRet {
+				mergeOnce = true
+			}
+		}
+	}
 	type st struct{ recv, name, field string }
 	setters := []st{
 		{"*Client", "SetCommonRetryCondition", "RetryConditions"}, {"*Client", "AddCommonRetryCondition", "RetryConditions"},
@@ -272,6 +324,8 @@ func syncRetryClone(repo string) (string, string, error) {
 	fmt.Fprintf(&sb, "(* Request.do consults r.Context() itself for the stop decision and the wait of every attempt *)\nDefinition ctx_read_per_attempt : bool := %s.\n\n", hk.CoqBool(ctxPerAttempt))
 	fmt.Fprintf(&sb, "(* SetBodyBytes' GetBody returns a reader of its own on every call *)\nDefinition getbody_fresh_reader : bool := %s.\n\n", hk.CoqBool(freshReader))
 	fmt.Fprintf(&sb, "(* the fields of the Request that Client.roundTrip (run once per attempt) assigns *)\nDefinition roundtrip_assigns : list bytes := %s.\n\n", hk.CoqStrList(rtAssigns))
+	fmt.Fprintf(&sb, "(* call sites of the caller's callbacks in the non-test sources: interval function, hooks, conditions *)\nDefinition callback_call_sites : list nat := [%d; %d; %d]%%nat.\n\n", callSites["interval"], callSites["hooks"], callSites["conds"])
+	fmt.Fprintf(&sb, "(* parseRequestHeader returns at once on a retry attempt: client headers are merged once per execution *)\nDefinition header_merge_once : bool := %s.\n\n", hk.CoqBool(mergeOnce))
 	sb.WriteString("(* what each setter does to its slice *)\nDefinition setter_table : list (bytes * setter_kind) := [\n" + strings.Join(rows, ";\n") + "\n].\n")
 	return "RetryClone.v", sb.String(), nil
 }
